@@ -370,6 +370,19 @@ def run_history(res, exe, rng, first, sweep=None, nt=NT, nr=4):
                 if op[1] < len(tps):
                     m.send(tps[op[1]], now, "trigger")
                 refused = len(m.out) > nout and rng.random() < 0.15
+                fullpool = []
+                tp_ = tps[op[1]] if op[1] < len(tps) else None
+                if (not refused) and len(m.out) > nout and tp_ is not None and tp_.I > 0 and tp_.E == 0 and rng.random() < 0.3:
+                    # the timer pool is completely in use when this TPDO goes out (application timers hold every free block): the frame is
+                    # sent, the inhibit time cannot be started - so the TPDO is not inhibited afterwards, the next trigger goes out at once
+                    while len(fullpool) < 40:
+                        r_ = sim.ret("tmrcreate 600000 0 %d" % (16 + len(fullpool)))
+                        if r_ is None or int(r_[0]) < 0:
+                            break
+                        fullpool.append(int(r_[0]))
+                    tp_.inh_until = None
+                    script[-1] += " (timer pool full)"
+                    res.counters["tpdo_sent_with_full_timer_pool"] += 1
                 if refused:
                     # the CAN driver refuses this frame (transmit queue full): that one frame is lost, everything else - inhibit time,
                     # event time, later triggers - goes on as if it had been sent
@@ -379,6 +392,8 @@ def run_history(res, exe, rng, first, sweep=None, nt=NT, nr=4):
                 evs = sim.cmd("trigpdo %d" % op[1])
                 if refused:
                     sim.cmd("fault cansend 0")
+                for id_ in fullpool:
+                    sim.cmd("tmrdelete %d" % id_)
             elif op[0] == "trigcb":
                 # API call from inside COPdoTransmit: while the frame of an event-driven TPDO goes out the application triggers the same
                 # TPDO again - with an inhibit time that is one more transmission when the inhibit time ends, without one it follows at once
